@@ -17,7 +17,7 @@ PROP = 'C06'
 LEAN_TARGETS = ['VivProps.C06']
 DRIVER = 'Topo'
 REQUIRED_THEOREMS = ['read_write_same_node', 'inverse_single', 'apply_single', 'apply_single_frame',
-                     'multi_two_applied_partial', 'multi_direct_and_glob_applied_partial']
+                     'multi_two_applied_partial', 'multi_direct_and_glob_applied_partial', 'multi_n_applied']
 ANCHORS = [
     ('vivarium/core/store.py', ['Store._topology_ports', 'Store.outer_path', 'Store._establish_path',
                                 'Store._apply_config', 'Store.schema_topology', 'Store.get_path',
@@ -529,16 +529,18 @@ LEVEL_TEXT = ('Lean 4 theorems over all trees, schemas, topologies, process posi
               '(unbounded): if the view built by WALKING the tree shows node a for variable v, the update '
               'inverted LEXICALLY for v alone is exactly the single-path update to a; applying it leaves '
               'f(old, u) in a and every node at a diverging path untouched; the value read for v is the value '
-              'of a. Two leaf ports on one variable (F5 shape): both values are carried in `_multi_update` and '
-              'applied as a fold. Tied to store.py/topology.py/engine.py by a differential check against the '
+              'of a. Any number n >= 2 of leaf ports wired by tuple paths to one variable: all n values are '
+              'carried in `_multi_update`, in topology order, and applied as a fold (`multi_n_applied`, by '
+              'induction over the ports). Tied to store.py/topology.py/engine.py by a differential check against the '
               'real Engine plus a model-independent read/write oracle.')
 LEVEL_NOTE = ('Trusted: Lean kernel; axioms ⊆ {propext, Classical.choice, Quot.sound}; hand-written model '
               'validated differentially on snapshots of the real Store tree (the declaration of nodes by '
               '`_topology_ports` is exercised through the real engine, not modelled). `multi_two_applied_partial` '
               '(two leaf ports) and `multi_direct_and_glob_applied_partial` (direct port + path-wired glob port on '
-              'one child variable, both listing orders — the shape repaired by 9f366a6) are proved; the n-variable '
-              'statement over arbitrary port forms is checked by the oracle (up to 9 variables) and the '
-              'correspondence, not proved. Outside WellFormed (noted edge CF-B, notes/C06.md): ports omitted '
+              'one child variable, both listing orders — the shape repaired by 9f366a6) are proved, and '
+              '`multi_n_applied` proves the n-variable statement for leaf ports with tuple paths; n variables '
+              'meeting through the other port forms (dictionary / `_path` / glob ports) are checked by the oracle '
+              '(up to 9 variables) and the correspondence, not proved. Outside WellFormed (noted edge CF-B, notes/C06.md): ports omitted '
               'from a topology level without `_path` (read by default, updates dropped).')
 TECHNIQUE = 'Lean 4 proof (induction over declared variables; walking = lexical bridge from C17) + differential model/code check'
 
